@@ -256,6 +256,31 @@ func detectTypeLoop(types []*ast.TypeDeclaration, deps packageDeclsDeps) error {
 	return nil
 }
 
+// funcVarsResolved reports whether none of the variables that the function
+// named name refers to, directly or through other functions, is in
+// unresolved (the variables not yet sorted).
+func funcVarsResolved(name string, deps packageDeclsDeps, funcs []*ast.Func, unresolved []*ast.Var, seen map[string]bool) bool {
+	if seen[name] {
+		return true
+	}
+	seen[name] = true
+	for _, dep := range depsOf(name, deps) {
+		for _, v := range unresolved {
+			for _, left := range v.Lhs {
+				if left.Name == dep.Name {
+					return false
+				}
+			}
+		}
+		for _, f := range funcs {
+			if f.Ident.Name == dep.Name && !funcVarsResolved(dep.Name, deps, funcs, unresolved, seen) {
+				return false
+			}
+		}
+	}
+	return true
+}
+
 func sortDeclarations(pkg *ast.Package) error {
 	var extends *ast.Extends
 	types := []*ast.TypeDeclaration{}
@@ -455,9 +480,9 @@ varsLoop:
 				}
 				for _, f := range funcs {
 					if dep.Name == f.Ident.Name {
-						// This dependency has been resolved: move
-						// on checking for next one.
-						found = true
+						// A function is resolved when all the variables it
+						// refers to, also through other functions, are.
+						found = funcVarsResolved(f.Ident.Name, deps, funcs, vars, map[string]bool{})
 						break
 					}
 				}
